@@ -358,3 +358,46 @@ mutant("c14-pop-all-shares", "C14", "contextlib.py",
 neutral("c14-unwind-swap-then-iterate", ["C14", "C06", "C17", "C18"], "contextlib.py",
         "        while self._exit_callbacks:\n            callback = self._exit_callbacks.pop()\n            try:\n",
         "        callbacks, self._exit_callbacks = self._exit_callbacks, deque()\n        for callback in reversed(callbacks):\n            try:\n")
+
+# --------------------------------------------------------------------------- C13
+mutant("c13-handlers-reordered", "C13", "contextlib.py",
+       "            except StopAsyncIteration as exc:\n                return exc is not exc_tb\n            except RuntimeError as exc:\n                if exc is exc_val:\n                    return False\n                # Handle promotion of unhandled Stop[Async]Iteration to RuntimeError\n                if isinstance(exc_val, (StopIteration, StopAsyncIteration)):\n                    if exc.__cause__ is exc_val:\n                        return False\n                raise\n            except exc_type as exc:\n                if exc is not exc_val:\n                    raise\n                return False\n",
+       "            except exc_type as exc:\n                if exc is not exc_val:\n                    raise\n                return False\n            except StopAsyncIteration as exc:\n                return exc is not exc_tb\n            except RuntimeError as exc:\n                if exc is exc_val:\n                    return False\n                # Handle promotion of unhandled Stop[Async]Iteration to RuntimeError\n                if isinstance(exc_val, (StopIteration, StopAsyncIteration)):\n                    if exc.__cause__ is exc_val:\n                        return False\n                raise\n",
+       rule="R13.1")
+mutant("c13-runtimeerror-suppressed", "C13", "contextlib.py",
+       "                if exc is exc_val:\n                    return False\n                # Handle promotion",
+       "                if exc is exc_val:\n                    return True\n                # Handle promotion", rule="R13.1")
+mutant("c13-no-raise-when-yields-again", "C13", "contextlib.py",
+       '                raise RuntimeError("generator did not stop after throw() in __aexit__")\n',
+       "                return False\n", rule="R13.1")
+mutant("c13-promotion-misattributed", "C13", "contextlib.py",
+       "                    if exc.__cause__ is exc_val:\n                        return False\n",
+       "                    return False\n", rule="R13.1")
+mutant("c13-promotion-not-recognised", "C13", "contextlib.py",
+       "                if isinstance(exc_val, (StopIteration, StopAsyncIteration)):\n                    if exc.__cause__ is exc_val:\n                        return False\n                raise\n",
+       "                raise\n", rule="R13.1")
+mutant("c13-new-exception-swallowed", "C13", "contextlib.py",
+       "            except exc_type as exc:\n                if exc is not exc_val:\n                    raise\n                return False\n",
+       "            except exc_type as exc:\n                return False\n", rule="R13.1")
+mutant("c13-stop-not-suppressing", "C13", "contextlib.py",
+       "                return exc is not exc_tb\n", "                return exc is exc_tb\n", rule="R13.1")
+mutant("c13-throw-type-not-value", "C13", "contextlib.py",
+       "result = await self.gen.athrow(exc_val)", "result = await self.gen.athrow(exc_type)", rule="R13.2")
+mutant("c13-generatorexit-thrown", "C13", "contextlib.py",
+       "                if exc_type is GeneratorExit:\n                    result = await self.gen.aclose()  # type: ignore\n                else:\n                    result = await self.gen.athrow(exc_val)\n",
+       "                result = await self.gen.athrow(exc_val)\n", rule="R13")
+mutant("c13-noexc-no-stop-check", "C13", "contextlib.py",
+       '            else:\n                raise RuntimeError("generator did not stop after __aexit__")\n',
+       "            else:\n                return False\n", rule="R13.1")
+mutant("c13-noexc-double-step", "C13", "contextlib.py",
+       "            try:\n                await self.gen.__anext__()\n            except StopAsyncIteration:\n                return False\n",
+       "            try:\n                await self.gen.__anext__()\n                await self.gen.__anext__()\n            except StopAsyncIteration:\n                return False\n",
+       rule="R13")
+mutant("c13-enter-drops-value", "C13", "contextlib.py",
+       "            return await self.gen.__anext__()\n        except StopAsyncIteration:\n",
+       "            await self.gen.__anext__()\n            return None\n        except StopAsyncIteration:\n", rule="R13.3")
+mutant("c13-enter-no-yield-silent", "C13", "contextlib.py",
+       '            raise RuntimeError("generator did not yield to __aenter__") from None\n',
+       "            return None  # type: ignore\n", rule="R13.3")
+neutral("c13-identity-test-like-stdlib", ["C13", "C06"], "contextlib.py",
+        "                return exc is not exc_tb\n", "                return exc is not exc_val\n")
